@@ -90,3 +90,39 @@ def end_together(R, E):
     """the largest boundaries of the two annotations agree (np.allclose tolerance)"""
     return exists(0, length(R), lambda i: forall(0, length(R), lambda k: R[k, 1] <= R[i, 1])
                   and exists(0, length(E), lambda j: forall(0, length(E), lambda k: E[k, 1] <= E[j, 1]) and close_to(R[i, 1], E[j, 1])))
+
+
+# ----------------------------------------------------------------------------- merge_labeled_intervals
+def contiguous(I):
+    return forall(0, length(I) - 1, lambda i: I[i, 1] == I[i + 1, 0])
+
+
+def is_boundary(I, t):
+    return exists(0, length(I), lambda i: I[i, 0] == t or I[i, 1] == t)
+
+
+@contract("mir_eval.util.merge_labeled_intervals", props="C13 C14", mask_triggers=True)
+def merge_labeled_intervals(x_intervals: Arr(Real, None, 2), x_labels: Lst(ObjT), y_intervals: Arr(Real, None, 2), y_labels: Lst(ObjT)):
+    """the common refinement of two aligned, contiguous annotations"""
+    n = length(x_intervals)
+    m = length(y_intervals)
+    requires(n > 0, m > 0, length(x_labels) == n, length(y_labels) == m)
+    requires(positive(x_intervals), ordered(x_intervals), contiguous(x_intervals))
+    requires(positive(y_intervals), ordered(y_intervals), contiguous(y_intervals))
+    raises(ValueError, when=x_intervals[0, 0] != y_intervals[0, 0] or x_intervals[n - 1, 1] != y_intervals[m - 1, 1], props="C14 C13")
+    invariant(lambda: length(x_labels_out) == loop_index(0) and length(y_labels_out) == loop_index(0), loop=0, label='one-label-per-piece',
+              havoc={'x_labels_out': 'obj', 'y_labels_out': 'obj'})
+    invariant(lambda: forall2_rect(loop_index(0), length(x_intervals), lambda t, j: implies(x_intervals[j, 0] <= output_intervals[t, 0] and output_intervals[t, 0] < x_intervals[j, 1],
+                                                                         x_labels_out[t] == x_labels[j])), loop=0, label='x-label-of-the-piece')
+    invariant(lambda: forall2_rect(loop_index(0), length(y_intervals), lambda t, j: implies(y_intervals[j, 0] <= output_intervals[t, 0] and output_intervals[t, 0] < y_intervals[j, 1],
+                                                                         y_labels_out[t] == y_labels[j])), loop=0, label='y-label-of-the-piece')
+    out, xl, yl = result
+    k = length(out)
+    ensures(k > 0, length(xl) == k, length(yl) == k, label='sizes')
+    ensures(forall(0, k, lambda i: out[i, 0] < out[i, 1]), label='positive-duration')
+    ensures(forall(0, k - 1, lambda i: out[i, 1] == out[i + 1, 0]), label='contiguous')
+    assert_step(forall(0, k, lambda i: out[i, 1] <= x_intervals[n - 1, 1]), label='no-piece-ends-after-the-span')
+    ensures(out[0, 0] == x_intervals[0, 0], out[k - 1, 1] == x_intervals[n - 1, 1], label='span-conserved')
+    ensures(forall2_rect(k, n, lambda t, j: implies(x_intervals[j, 0] <= out[t, 0] and out[t, 0] < x_intervals[j, 1], xl[t] == x_labels[j])),
+            forall2_rect(k, m, lambda t, j: implies(y_intervals[j, 0] <= out[t, 0] and out[t, 0] < y_intervals[j, 1], yl[t] == y_labels[j])),
+            label='each-piece-carries-both-labels')
